@@ -174,9 +174,17 @@ def _count(d, k, n=1):
     d[k] = d.get(k, 0) + n
 
 
+KWMASK = dict(CAPS, fs=32 | 64 | 1024, net=4 | 8, ffi=16 | 2048 | 4096, all=0xFFFFFFFF, none=0)
+
+
 def analyse(M, res, predicted, pmodes=None):
     """-> (violations, unpredicted, ncalls, nsens)"""
     viol, unpred = [], []
+    # the capabilities this configuration disabled before the first marked call (and before any thread was started): the
+    # reference of the direct oracle.  A thread that lost its parent's word runs with flags = 0 - its OS calls are escapes all the same.
+    cfgmask = 0
+    for c_ in res["caps"].split(","):
+        cfgmask |= KWMASK.get(c_, 0)
     pmodes = pmodes or {}
     marks = {}
     ncalls = nsens = 0
@@ -209,9 +217,10 @@ def analyse(M, res, predicted, pmodes=None):
         _count(DIST["sensitive_by_call"], name)
         _count(DIST["sensitive_by_thread_mode"], res["mode"])
         for g in groups:
-            if g & flags == g:
+            if g & ((flags | cfgmask) if vm == "vm" else flags) == g:     # "vm" = the sweeping thread (sweep.c logcall)
                 viol.append(dict(binding=binding, shape=int(shape), call=name, detail=detail.replace(res["dir"], "<dir>"), flags=flags,
-                                 disabled=capnames(g), thread=vm, caps=res["caps"], mode=res["mode"]))
+                                 disabled=capnames(g), thread=vm, caps=res["caps"], mode=res["mode"],
+                                 **({"thread_lost_flags": capnames(cfgmask & ~flags & 0x3FFF)} if vm == "vm" and cfgmask & ~flags & 0x3FFF and g & flags != g else {})))
         if kind == "c" and vm == "vm" and res["mode"] == "same" and binding in predicted and name not in predicted[binding]:
             alias = {"open": "open64", "fopen": "fopen64", "stat": "stat64", "lstat": "lstat64", "tmpfile": "tmpfile64", "mmap": "mmap64"}
             if alias.get(name, name) not in predicted[binding]:
